@@ -264,7 +264,11 @@ func run(r *core.Run) {
 			for _, typ := range types {
 				for _, pol := range readPolicies(kind, typ) {
 					for _, binaryFmt := range []bool{false, true} {
-						runRead(r, db, kind, typ, pol, binaryFmt, blobs)
+						bs := blobs
+						if kind != "plain" && len(bs) > 9 {
+							bs = bs[:9] // the random values of the thorough tier go to the encryption-only columns
+						}
+						runRead(r, db, kind, typ, pol, binaryFmt, bs)
 					}
 				}
 			}
@@ -691,7 +695,11 @@ func runRead(r *core.Run, db, kind, typ string, pol policyCase, binaryFmt bool, 
 	}
 
 	// (a) the owner: the value is revealed
-	for _, m := range plainValues(typ, rd, r.N(3, 60)) {
+	random := r.N(3, 60)
+	if kind != "plain" {
+		random = r.N(3, 6)
+	}
+	for _, m := range plainValues(typ, rd, random) {
 		w := wires[rd.Intn(len(wires))]
 		r.Begin(line(core.Hex(m), w[0]), true, "stream:structured", ktag+db, "reader:owner", "type:"+typ, "policy:"+effective, "fmt:"+fmtName(binaryFmt))
 		rev := core.Hex(m)
